@@ -168,3 +168,19 @@ PROPS['C16'] = {'level': 'exploration', 'quick': [('fs:spec', 4000)], 'thorough'
 PROPS['C14']['quick'] = [('merge:concurrent', 2500), ('fs:conc', 800)]
 PROPS['C14']['thorough'] = [('merge:concurrent', 120000), ('fs:conc', 40000)]
 PROPS['C14']['rule'] += '; plus the same workload with the real FileSystemDataStore as DataStore and MetaStore over simos (directory scan, opens and reads gated)'
+
+PROPS['C19'] = {'level': 'exploration', 'quick': [('corrupt:general', 6000)], 'thorough': [('corrupt:general', 400000)],
+    'rule': 'seeded corruption runs on engine-written files (1-4 blocks, every compression): byte-level mutations (bit flips, bursts, truncation inside row data / filter region / file filter section / JSON / tail, '
+            'extension, splice of another file, foreign tail) with metadata held by the MetaStore, applied before a query, while the query runs (between store calls), or before a merge; and CRC-consistent '
+            're-framing of footer fields (region offset/size, block row-data offset/size, filter offset/size, uncompressed size, rows, file filter size) to boundary and arbitrary values up to +-2^63 with metadata '
+            'read back from the file through the real FileSystemDataStore; read helpers run over a bounds-recording reader; non-trivial = the image differs from the original; distinct = distinct decision sequences',
+    'assumptions': ['allocation beyond the file size is observed through the size of the read buffers handed to the store (a fatal out-of-memory kills the worker and is reported as harness trouble, exit 2)']}
+
+PROPS['C27'] = {'level': 'exploration',
+    'quick': [('life:general', 2500), ('life:logger', 300), ('content:general', 400), ('cursor:general', 800), ('merge:faults', 400), ('fs:crash', 60), ('corrupt:general', 1500)],
+    'thorough': [('life:general', 120000), ('life:logger', 3000), ('content:general', 15000), ('cursor:general', 40000), ('merge:faults', 20000), ('fs:crash', 3000), ('corrupt:general', 80000)],
+    'rule': 'file descriptors 1 and 2 of every worker are redirected to a capture file; after every simulated run of every scenario (lifecycle with store failures and Stop deadlines, content with '
+            'filter-less external files, cursor faults, merge faults, file-system crashes, corrupt files) the capture file must not have grown; life:logger is the control class with a configured Logger '
+            '(probe c27.logger-bytes shows the same paths do log); non-trivial = the run went through a failure, deadline, corruption or missing-filter path; distinct = workload+decision digests',
+    'expect_probes': ['c27.logger-bytes'],
+    'assumptions': ['output is observed at the file-descriptor level (fd 1 and fd 2), which covers fmt.Print*, log, slog default handlers and panics alike']}
